@@ -20,22 +20,26 @@ void h_time_add (void) {
 	VP_PRE (VP_PRE_time_add (a, b));
 	r = nsync_time_add (a, b);
 	VP_POST ("nsync_time_add.postcondition", VP_POST_time_add (a, b, r));
+	VP_CANARY ();
 }
 void h_time_sub (void) {
 	nsync_time a = any_time (), b = any_time (), r;
 	VP_PRE (VP_PRE_time_sub (a, b));
 	r = nsync_time_sub (a, b);
 	VP_POST ("nsync_time_sub.postcondition", VP_POST_time_sub (a, b, r));
+	VP_CANARY ();
 }
 void h_time_cmp (void) {
 	nsync_time a = any_time (), b = any_time ();
 	int r = nsync_time_cmp (a, b);
 	VP_POST ("nsync_time_cmp.postcondition", VP_POST_time_cmp (a, b, r));
+	VP_CANARY ();
 }
 void h_time_s_ns (void) {
 	time_t s = vp_nondet_i64 (); unsigned ns = vp_nondet_u32 ();
 	nsync_time r = nsync_time_s_ns (s, ns);
 	VP_POST ("nsync_time_s_ns.postcondition", VP_POST_time_s_ns (s, ns, r));
+	VP_CANARY ();
 }
 void h_time_ms (void) {
 	unsigned ms; nsync_time r;
@@ -43,6 +47,7 @@ void h_time_ms (void) {
 	VP_PRE (VP_PRE_time_ms (ms));
 	r = nsync_time_ms (ms);
 	VP_POST ("nsync_time_ms.postcondition", VP_POST_time_ms (ms, r));
+	VP_CANARY ();
 }
 void h_time_us (void) {
 	unsigned us; nsync_time r;
@@ -50,6 +55,7 @@ void h_time_us (void) {
 	VP_PRE (VP_PRE_time_us (us));
 	r = nsync_time_us (us);
 	VP_POST ("nsync_time_us.postcondition", VP_POST_time_us (us, r));
+	VP_CANARY ();
 }
 
 #ifdef VP_CPROVER
@@ -63,6 +69,7 @@ void h_lemma_add_sub (void) {
 	__CPROVER_assume (VP_SUB_OK (s, b));
 	d = nsync_time_sub (s, b);
 	__CPROVER_assert (d.tv_sec == a.tv_sec && d.tv_nsec == a.tv_nsec, "C18: (a+b)-b == a");
+	VP_CANARY ();
 }
 /* cmp is a total order */
 void h_lemma_cmp_order (void) {
@@ -75,6 +82,7 @@ void h_lemma_cmp_order (void) {
 	__CPROVER_assert (!(ab == 0) || (a.tv_sec == b.tv_sec && a.tv_nsec == b.tv_nsec), "C18: cmp==0 iff equal");
 	__CPROVER_assert (!(ab <= 0 && bc <= 0) || ac <= 0, "C18: cmp transitive");
 	__CPROVER_assert (!(ab < 0 && bc <= 0) || ac < 0, "C18: cmp strictly transitive");
+	VP_CANARY ();
 }
 /* cmp agrees with the sign of a-b */
 void h_lemma_cmp_sub (void) {
@@ -85,5 +93,6 @@ void h_lemma_cmp_sub (void) {
 	c = nsync_time_cmp (a, b);
 	sign = d.tv_sec < 0 ? -1 : (d.tv_sec == 0 && d.tv_nsec == 0) ? 0 : 1;
 	__CPROVER_assert (c == sign, "C18: cmp consistent with the sign of a-b");
+	VP_CANARY ();
 }
 #endif
